@@ -1,5 +1,6 @@
 import Utv.GenEq.Support
 import Utv.Gen.Field
+import Utv.Gen.Options
 import Utv.Model.C05
 /-!
 C05 — T1 obligations: the field predicates of the hand model (`Model/C05.lean`: `isNoInput isNoOutput alwaysNoInput
@@ -211,5 +212,86 @@ theorem C05_gen_is_case_insensitive_setup (W : Obj.World V) (W5 : C05.World V) (
         ("case_insensitive", match d.ci with | none => .none | some b => .bool b)]) (encOpts o)
       = .ok (.bool (mkField W5 o d).ci) := by
   cases h : d.ci <;> field_simp [mkField, h]
+
+/-! ### `Options.__init__` normalisation (`Opts.normalise`) -/
+
+def encOptNat : Option Nat → OVal V
+  | none => .none
+  | some n => .int n
+
+/-- the keyword arguments `Options(...)` is called with for an `Opts` of the model -/
+def encKw (o : Opts V) : List (String × OVal V) := [
+  ("mode", match o.mode with | none => .none | some m => .str (String.singleton (ltr m))),
+  ("ignore_required", .bool o.ignoreRequired),
+  ("no_default", .bool o.noDefault),
+  ("defer_default", .bool o.deferDefault),
+  ("force_default", encOptVal o.forceDefault),
+  ("collect_errors", .bool o.collectErrors),
+  ("max_errors", encOptNat o.maxErrors),
+  ("invalid_values", encOnErr o.invalidValues),
+  ("case_insensitive", .bool o.caseInsensitive)]
+
+/-- attribute `name` of the record a translated function returned -/
+def field (r : M V (OVal V)) (name : String) : M V (OVal V) := r >>= fun x => getattr x name
+
+/-- `force_default` together with `no_default` is refused -/
+theorem C05_gen_options_init_conflict (W : Obj.World V) (self : OVal V) (o : Opts V)
+    (h : o.forceDefault.isSome = true ∧ o.noDefault = true) :
+    Options.Options_init W self (encKw o) = .error (.raised (.obj "ConfigError" [])) := by
+  obtain ⟨omode, _, ir, nd, dd, fd, _, ce, me, _, _, iv, _, oci⟩ := o
+  simp only at h
+  obtain ⟨h1, h2⟩ := h
+  subst h2
+  cases fd with
+  | none => simp at h1
+  | some d =>
+    obj_simp [Options.Options_init, Options.multi, encKw, lookupAttr, truthy, isinstance, callable,
+      OVal.isUnprovided, OVal.isNone, encOptVal]
+
+/-- otherwise the stored options are those of `Opts.normalise`: force_default implies ignore_required; max_errors is
+dropped without collect_errors (**except `max_errors=0`, which Python keeps — `if max_errors:` — and which has no
+effect without `collect_errors`**); everything else is stored as given -/
+theorem C05_gen_options_init (W : Obj.World V) (self : OVal V) (o : Opts V)
+    (h : ¬ (o.forceDefault.isSome = true ∧ o.noDefault = true)) :
+    let r := Options.Options_init W self (encKw o)
+    field r "ignore_required" = .ok (.bool o.normalise.ignoreRequired) ∧
+    field r "max_errors" = .ok (encOptNat (if o.maxErrors = some 0 then some 0 else o.normalise.maxErrors)) ∧
+    field r "force_default" = .ok (encOptVal o.normalise.forceDefault) ∧
+    field r "no_default" = .ok (.bool o.normalise.noDefault) ∧
+    field r "defer_default" = .ok (.bool o.normalise.deferDefault) ∧
+    field r "collect_errors" = .ok (.bool o.normalise.collectErrors) ∧
+    field r "invalid_values" = .ok (encOnErr o.normalise.invalidValues) ∧
+    field r "case_insensitive" = .ok (.bool o.normalise.caseInsensitive) ∧
+    field r "mode" = .ok (match o.normalise.mode with | none => .none | some m => .str (String.singleton (ltr m))) := by
+  obtain ⟨omode, ad, ir, nd, dd, fd, iac, ce, me, mxp, mnp, iv, dfs, oci⟩ := o
+  simp only [not_and, Bool.not_eq_true] at h
+  have key : Options.Options_init W self (encKw ⟨omode, ad, ir, nd, dd, fd, iac, ce, me, mxp, mnp, iv, dfs, oci⟩) =
+      .ok (.obj "locals" [("mode", match omode with | none => .none | some m => .str (String.singleton (ltr m))),
+        ("override", .unprovided), ("immutable", .unprovided), ("collect_errors", .bool ce),
+        ("max_errors", encOptNat (if me = some 0 then some 0 else if ce then me else none)),
+        ("max_depth", .unprovided), ("max_params", .unprovided), ("min_params", .unprovided),
+        ("transformer_cls", .unprovided), ("no_explicit_cast", .unprovided), ("no_data_loss", .unprovided),
+        ("addition", .unprovided), ("invalid_items", .unprovided), ("invalid_keys", .unprovided),
+        ("invalid_values", encOnErr iv), ("unresolved_types", .unprovided), ("secret_names", .unprovided),
+        ("force_default", encOptVal fd), ("no_default", .bool nd), ("defer_default", .bool dd),
+        ("ignore_required", .bool (ir || fd.isSome)), ("ignore_delete_nonexistent", .unprovided),
+        ("ignore_constraints", .unprovided), ("alias_from_generator", .unprovided), ("alias_generator", .unprovided),
+        ("ignore_alias_conflicts", .unprovided), ("allow_subclasses", .unprovided), ("cast_keyword_str", .unprovided),
+        ("case_insensitive", .bool oci), ("data_first_search", .unprovided)]) := by
+    cases fd with
+    | none =>
+      cases ce <;> cases me <;>
+        obj_simp [Options.Options_init, Options.multi, encKw, lookupAttr, truthy, isinstance, callable,
+          OVal.isUnprovided, OVal.isNone, encOptVal, encOptNat]
+      all_goals (try grind)
+    | some d =>
+      have hnd : nd = false := by simpa using h
+      subst hnd
+      cases ce <;> cases me <;>
+        obj_simp [Options.Options_init, Options.multi, encKw, lookupAttr, truthy, isinstance, callable,
+          OVal.isUnprovided, OVal.isNone, encOptVal, encOptNat]
+      all_goals (try grind)
+  simp only [key, field, Opts.normalise]
+  obj_simp [getattr, lookupAttr]
 
 end Utv.GenEq.C05
